@@ -166,13 +166,21 @@ def check_blade_ops(res, L, rng, tag, reps):
             M = e[0] + (e[0] ^ e[1])
             if M.isBlade():
                 res.violate('a sum of two different grades is reported as a blade', dict(site, M=M.value.tolist()), True, False, dict(site, op='isBlade-mixed'))
+            # unit vectors of either sign of the square (v*v = +1 and v*v = -1), axis-aligned and not
+            seen = set()
             for i in range(n):
-                if sig[i] == 1:
-                    V = 1 + e[i]
-                    if V.isBlade() or V.isVersor():
-                        res.violate('1 + v for a unit vector v is reported as a blade or versor', dict(site, v=i), [bool(V.isBlade()), bool(V.isVersor())], [False, False],
-                                    dict(site, op='isVersor-1+v'))
-                    break
+                if sig[i] in (1, -1) and sig[i] not in seen:
+                    seen.add(sig[i])
+                    cands = [('basis', e[i])]
+                    j = next((j for j in range(n) if j != i and sig[j] == sig[i]), None)
+                    if j is not None:
+                        cands.append(('3-4-5', (3 * e[i] + 4 * e[j]) / 5.0))
+                    for kind, v in cands:
+                        res.case(('1+v', tag, int(sig[i]), kind))
+                        V = 1 + v
+                        if V.isBlade() or V.isVersor():
+                            res.violate('1 + v for a unit vector v is reported as a blade or versor', dict(site, v=v.value.tolist(), v_sq=int(sig[i]), kind=kind),
+                                        [bool(V.isBlade()), bool(V.isVersor())], [False, False], dict(site, op='isVersor-1+v', v_sq=int(sig[i])))
 
 
 def check_join_meet(res, L, rng, tag, reps):
